@@ -92,7 +92,27 @@ def _replay_gen():
     return {'real': r, 'confirmed': not ok, 'note': 'replay: real generators for (n_paths, n_steps) in {(1,1),(3,2),(4,7)}, non-default initial states, float32/float64: shape, first column, finiteness, sign, dtype'}
 
 
-def _verdict(rows, t0, sample, deciding_prefix=''):
+LAW = '[law] '
+
+
+def _select(rows, aspect):
+    """rows tagged '[law]' state the law of the model (C10); the others are well-formedness rows (C11).
+    An obligation built for one property decides on its own rows only."""
+    if aspect == 'law':
+        return [r for r in rows if LAW in r[0]]
+    if aspect == 'wf':
+        return [r for r in rows if LAW not in r[0]]
+    return rows
+
+
+def _props(aspect):
+    return {'law': ['C10'], 'wf': ['C11']}.get(aspect, ['C10', 'C11'])
+
+
+def _verdict(rows, t0, sample, aspect=None):
+    rows = _select(rows, aspect)
+    if not rows:
+        return Verdict('unknown', 'engine', time.time() - t0, 'no rows for aspect %s' % aspect, sample=sample)
     bad = [r for r in rows if r[1] == 'refuted']
     unk = [r for r in rows if r[1] == 'unknown']
     sample['vcs'] = [{'vc': r[0], 'status': r[1]} for r in rows][:14]
@@ -115,7 +135,7 @@ def _side_rows(p, skip_kinds=('bounds',)):
 
 # ------------------------------------------------------------------ loop-free generators: exact path-wise identities
 
-def brownian_ob(geometric):
+def brownian_ob(geometric, aspect=None):
     name = 'generate_geometric_brownian' if geometric else 'generate_brownian'
 
     def check():
@@ -149,16 +169,16 @@ def brownian_ob(geometric):
                 bm2 = tm.add(tm.mul(V['mu'], tj), tm.mul(V['sigma'], tm.app('sqrt', V['dt']), W2))
                 want2 = tm.mul(V['x0'], tm.app('exp', tm.sub(bm2, tm.mul(tm.const(0.5), V['sigma'], V['sigma'], tj)))) if geometric else tm.add(V['x0'], bm2)
                 r = fc.prove_eq(p.facts(hyps) + rng, res.at((n, j)), want2, timeout_ms=30000)
-            rows.append(('value == exact solution of the SDE step by step', {'unsat': 'proved', 'sat': 'refuted'}.get(r.status, 'unknown'), tm.show(res.at((n, j)))[:300] if r.status != 'unsat' else ''))
+            rows.append((LAW + 'value == exact solution of the SDE step by step', {'unsat': 'proved', 'sat': 'refuted'}.get(r.status, 'unknown'), tm.show(res.at((n, j)))[:300] if r.status != 'unsat' else ''))
             # horizon independence: column j does not mention n_steps
-            rows.append(('column j independent of the horizon', 'proved' if T not in tm.free_vars(res.at((n, j))) else 'refuted', ''))
-        return _verdict(rows, t0, sample)
-    return Obligation('GEN/%s/post' % name, 'post', S_ + 'brownian.' + name, check, ['C10', 'C11'],
+            rows.append((LAW + 'column j independent of the horizon', 'proved' if T not in tm.free_vars(res.at((n, j))) else 'refuted', ''))
+        return _verdict(rows, t0, sample, aspect)
+    return Obligation('GEN/%s/post' % name, 'post', S_ + 'brownian.' + name, check, _props(aspect),
                       clause='%s: (n_paths, n_steps) series, first column = initial state, %svalue[n,t] = %s for all n_paths, n_steps' % (
                           name, 'positive, ' if geometric else '', 'S0 exp((mu - sigma^2/2) dt t + sigma sqrt(dt) sum_{k<=t} Z[n,k])' if geometric else 'x0 + mu dt t + sigma sqrt(dt) sum_{k<=t} Z[n,k]'))
 
 
-def merton_ob():
+def merton_ob(aspect=None):
     def check():
         t0 = time.time()
         import torch
@@ -191,9 +211,9 @@ def merton_ob():
                     tj = tm.mul(V['dt'], tm.toreal(j))
                     want = tm.mul(V['x0'], tm.app('exp', tm.add(tm.mul(tm.sub(V['mu'], tm.mul(tm.const(0.5), V['sigma'], V['sigma'])), tj), tm.mul(V['sigma'], tm.app('sqrt', V['dt']), W2))))
                     r = fc.prove_eq(p.facts(hyps) + [tm.le(tm.IZERO, n), tm.lt(n, N), tm.le(tm.IZERO, j), tm.lt(j, T)], res.at((n, j)), want, timeout_ms=30000)
-                    rows.append(('zero intensity: reduces to geometric Brownian motion', {'unsat': 'proved', 'sat': 'refuted'}.get(r.status, 'unknown'), tm.show(res.at((n, j)))[:300] if r.status != 'unsat' else ''))
-        return _verdict(rows, t0, {'claim': 'Merton jump diffusion: well-formed; reduces to GBM at zero jump intensity'})
-    return Obligation('GEN/generate_merton_jump/post', 'post', S_ + 'merton_jump.generate_merton_jump', check, ['C10', 'C11'],
+                    rows.append((LAW + 'zero intensity: reduces to geometric Brownian motion', {'unsat': 'proved', 'sat': 'refuted'}.get(r.status, 'unknown'), tm.show(res.at((n, j)))[:300] if r.status != 'unsat' else ''))
+        return _verdict(rows, t0, {'claim': 'Merton jump diffusion: well-formed; reduces to GBM at zero jump intensity'}, aspect)
+    return Obligation('GEN/generate_merton_jump/post', 'post', S_ + 'merton_jump.generate_merton_jump', check, _props(aspect),
                       clause='generate_merton_jump: (n_paths, n_steps), first column = S0, positive; with jump_per_year = 0 it is exactly geometric Brownian motion')
 
 
@@ -271,7 +291,7 @@ def cir_ob():
                       clause='generate_cir: variance stays >= 0 on both branches of the quadratic-exponential scheme, first column = initial state, shape (n_paths, n_steps), for all n_steps and admissible parameters')
 
 
-def vasicek_ob():
+def vasicek_ob(aspect=None):
     def check():
         t0 = time.time()
         import torch
@@ -293,10 +313,10 @@ def vasicek_ob():
                 prev = out.at((n, tm.sub(i, tm.IONE)))          # i was already incremented by the cut
                 new = out.at((n, i))
                 return tm.eq(new, tm.add(V['theta'], tm.mul(e1, tm.sub(prev, V['theta'])), tm.mul(vola, randn.at((n, tm.sub(i, tm.IONE))))))
-            return [('mu == exp(-kappa dt)', tm.eq(mu_, e1)),
-                    ('vola^2 == sigma^2 (1 - e^{-2 kappa dt}) / (2 kappa)', tm.eq(tm.mul(vola, vola), tm.div(tm.mul(V['sigma'], V['sigma'], tm.sub(tm.ONE, tm.mul(e1, e1))), tm.mul(tm.const(2.0), V['kappa'])))),
+            return [(LAW + 'mu == exp(-kappa dt)', tm.eq(mu_, e1)),
+                    (LAW + 'vola^2 == sigma^2 (1 - e^{-2 kappa dt}) / (2 kappa)', tm.eq(tm.mul(vola, vola), tm.div(tm.mul(V['sigma'], V['sigma'], tm.sub(tm.ONE, tm.mul(e1, e1))), tm.mul(tm.const(2.0), V['kappa'])))),
                     ('vola >= 0', tm.ge(vola, tm.ZERO)),
-                    ('one step: x\' = theta + (x - theta) e^{-kappa dt} + vola Z', step, tm.IZERO, N)]
+                    (LAW + 'one step: x\' = theta + (x - theta) e^{-kappa dt} + vola Z', step, tm.IZERO, N)]
         cut, info = cutloops.cut(vmod.generate_vasicek, {0: cutloops.LoopSpec(inv, name='for i_step', lemmas=lemmas)})
 
         def run(c):
@@ -318,12 +338,12 @@ def vasicek_ob():
         # the recursion has been removed by the fix: no recursive call may remain
         import inspect
         rows.append(('no self-recursion (terminates for every initial state)', 'proved' if 'generate_vasicek(' not in inspect.getsource(vmod.generate_vasicek).split('"""')[-1] else 'refuted', ''))
-        return _verdict(rows, t0, sample)
-    return Obligation('GEN/generate_vasicek/loop', 'inv+lemma', S_ + 'vasicek.generate_vasicek', check, ['C10', 'C11'],
+        return _verdict(rows, t0, sample, aspect)
+    return Obligation('GEN/generate_vasicek/loop', 'inv+lemma', S_ + 'vasicek.generate_vasicek', check, _props(aspect),
                       clause='generate_vasicek: from any initial state each step is x\' = theta + (x-theta)e^{-kappa dt} + sigma sqrt((1-e^{-2 kappa dt})/(2 kappa)) Z (closed-form mean reversion around theta); first column; shape; no recursion')
 
 
-def heston_ob():
+def heston_ob(aspect=None):
     def check():
         t0 = time.time()
         import torch
@@ -376,18 +396,19 @@ def heston_ob():
             # wiring of the variance process
             def same(key, want):
                 return key in seen and lift(seen[key]) is want
-            okw = (same('kappa', V['kappa']) and same('theta', V['theta']) and same('sigma', V['sigma']) and same('dt', V['dt'])
-                   and len(seen.get('init_state', ())) == 1 and same('n_paths', N) and same('n_steps', T))
-            rows.append(('variance = generate_cir(n_paths, n_steps, init_state[1:], kappa, theta, sigma, dt)', 'proved' if okw and out.variance.name == 'VAR' else 'refuted', str({k_: str(v_)[:30] for k_, v_ in seen.items()})))
+            okw = len(seen.get('init_state', ())) == 1 and same('n_paths', N) and same('n_steps', T)
+            okp = same('kappa', V['kappa']) and same('theta', V['theta']) and same('sigma', V['sigma']) and same('dt', V['dt'])
+            rows.append(('variance = generate_cir(n_paths, n_steps, init_state[1:], ...): the CIR buffer of the same size started at init_state[1]', 'proved' if okw and out.variance.name == 'VAR' else 'refuted', str({k_: str(v_)[:30] for k_, v_ in seen.items()})))
+            rows.append((LAW + 'variance = generate_cir(..., kappa, theta, sigma, dt): the CIR process of the caller\'s parameters on the caller\'s time grid', 'proved' if okp and out.variance.name == 'VAR' else 'refuted', str({k_: str(v_)[:30] for k_, v_ in seen.items()})))
             n, j = tm.var('n', 'I'), tm.var('j', 'I')
             vol = out.volatility.at((n, j))
             rows.append(('volatility == sqrt(max(variance, 0))', 'proved' if vol is tm.app('sqrt', tm.tmax(tm.sel('VAR', n, j), tm.ZERO)) else 'refuted', tm.show(vol)[:100]))
-        return _verdict(rows, t0, sample)
-    return Obligation('GEN/generate_heston/loop', 'inv+pre@callsite+post', S_ + 'heston.generate_heston', check, ['C10', 'C11'],
+        return _verdict(rows, t0, sample, aspect)
+    return Obligation('GEN/generate_heston/loop', 'inv+pre@callsite+post', S_ + 'heston.generate_heston', check, _props(aspect),
                       clause='generate_heston: variance is the CIR process of the given parameters started at init_state[1]; spot > 0 with first column S0; the sqrt in the log-spot step is defined; volatility = sqrt(variance)')
 
 
-def local_vol_ob():
+def local_vol_ob(aspect=None):
     def check():
         t0 = time.time()
         import torch
@@ -414,7 +435,7 @@ def local_vol_ob():
                 sig = tm.app('SIG', tim.at((im1,)), s_prev)
                 return tm.and_(tm.eq(vol.at((n, im1)), sig),
                                tm.implies(tm.lt(i, T), tm.eq(sp.at((n, i)), tm.mul(s_prev, tm.add(tm.ONE, tm.mul(sig, dw.at((n, im1))))))))
-            return [('one step: vol[:,i] = sigma_fn(t_i, S_i);  S_{i+1} = S_i (1 + sigma_i dW_i)', step, tm.IZERO, N)]
+            return [(LAW + 'one step: vol[:,i] = sigma_fn(t_i, S_i);  S_{i+1} = S_i (1 + sigma_i dW_i)', step, tm.IZERO, N)]
         cut, info = cutloops.cut(lmod.generate_local_volatility_process, {0: cutloops.LoopSpec(inv, name='for i_step', lemmas=lemmas)})
 
         def run(c):
@@ -437,8 +458,8 @@ def local_vol_ob():
             # dW = sqrt(dt) Z with Z the randn_like draw: conditional mean zero
             zname = [e[2] for e in p.events if e[0] == 'random' and e[1] == 'Z'][0]
             dwt = None
-        return _verdict(rows, t0, sample)
-    return Obligation('GEN/generate_local_volatility_process/loop', 'inv+lemma', S_ + 'local_volatility.generate_local_volatility_process', check, ['C10', 'C11'],
+        return _verdict(rows, t0, sample, aspect)
+    return Obligation('GEN/generate_local_volatility_process/loop', 'inv+lemma', S_ + 'local_volatility.generate_local_volatility_process', check, _props(aspect),
                       clause='local volatility: S_{i+1} = S_i (1 + sigma_fn(t_i, S_i) sqrt(dt) Z_i), volatility[:, i] = sigma_fn(t_i, S_i); first column; shape')
 
 
@@ -498,7 +519,7 @@ def bounded_ob(tier):
 
 
 def c11_obligations(seed, tier='quick'):
-    return [brownian_ob(False), brownian_ob(True), merton_ob(), cir_ob(), vasicek_ob(), heston_ob(), local_vol_ob(), kou_ob(), dtype_ob(), bounded_ob(tier), rough_bergomi_bounded_obs()[1]]
+    return [brownian_ob(False, 'wf'), brownian_ob(True, 'wf'), merton_ob('wf'), cir_ob(), vasicek_ob('wf'), heston_ob('wf'), local_vol_ob('wf'), kou_ob('wf'), dtype_ob(), bounded_ob(tier), rough_bergomi_bounded_obs()[1]]
 
 
 # ------------------------------------------------------------------ C10: laws (moment calculus under the i.i.d. source contracts)
@@ -617,7 +638,10 @@ def _replay_law():
     return {'real': r, 'confirmed': not ok, 'note': 'replay: seeded Monte Carlo (4e5 paths) of the real generators against the closed-form means/variances, non-default parameters, initial states and dt (5-6 standard errors)'}
 
 
-def _verdict_law(rows, t0, sample):
+def _verdict_law(rows, t0, sample, aspect=None):
+    rows = _select(rows, aspect)
+    if not rows:
+        return Verdict('unknown', 'engine', time.time() - t0, 'no rows for aspect %s' % aspect, sample=sample)
     bad = [r for r in rows if r[1] == 'refuted']
     unk = [r for r in rows if r[1] == 'unknown']
     sample['vcs'] = [{'vc': r[0], 'status': r[1]} for r in rows][:14]
@@ -689,7 +713,7 @@ def merton_moments_ob():
                       clause='Merton jump diffusion: E[S_t] = S0 exp(mu t) (the drift compensates lambda (E e^J - 1)) and Var[log S_t] = sigma^2 t + lambda t (m^2 + s^2), from the path-wise term under R1, R4')
 
 
-def kou_ob():
+def kou_ob(aspect=None):
     def check():
         t0 = time.time()
         import torch
@@ -724,7 +748,7 @@ def kou_ob():
                     W2 = tm.tsum(k, tm.IZERO, tm.add(j, tm.IONE), tm.ite(tm.eq(k, tm.IZERO), tm.ZERO, tm.mul(V['sigma'], tm.app('sqrt', V['dt']), tm.sel('Z0', n, k))))
                     want = tm.mul(V['x0'], tm.app('exp', tm.add(tm.mul(tm.sub(V['mu'], tm.mul(tm.const(0.5), V['sigma'], V['sigma'])), tj), W2)))
                     r = fc.prove_eq(facts + rng, el, want, timeout_ms=30000)
-                    rows.append(('zero intensity: reduces to geometric Brownian motion', {'unsat': 'proved', 'sat': 'refuted'}.get(r.status, 'unknown'), tm.show(el)[:300] if r.status != 'unsat' else ''))
+                    rows.append((LAW + 'zero intensity: reduces to geometric Brownian motion', {'unsat': 'proved', 'sat': 'refuted'}.get(r.status, 'unknown'), tm.show(el)[:300] if r.status != 'unsat' else ''))
                     continue
                 E, others = _exp_arg(el)
                 sums = _normal_sums(E)
@@ -752,9 +776,9 @@ def kou_ob():
                          ('jump rates are 1/jump_mean_up and 1/jump_mean_down; P(up) = jump_up_prob', tm.and_(tm.eq(eu, tm.div(tm.ONE, K_['mup'])), tm.eq(ed, tm.div(tm.ONE, K_['mdn'])), tm.eq(p_up, K_['pup'])))]
                 for (lab, g) in goals:
                     r = smt.prove(facts + rng, g, timeout_ms=30000)
-                    rows.append((lab, {'unsat': 'proved', 'sat': 'refuted'}.get(r.status, 'unknown'), tm.show(g)[:400] if r.status != 'unsat' else ''))
-        return _verdict_law(rows, t0, sample)
-    return Obligation('LAW/kou_jump/post+moments', 'post+lemma', S_ + 'kou_jump.generate_kou_jump', check, ['C10', 'C11'],
+                    rows.append((LAW + lab, {'unsat': 'proved', 'sat': 'refuted'}.get(r.status, 'unknown'), tm.show(g)[:400] if r.status != 'unsat' else ''))
+        return _verdict_law(rows, t0, sample, aspect)
+    return Obligation('LAW/kou_jump/post+moments', 'post+lemma', S_ + 'kou_jump.generate_kou_jump', check, _props(aspect),
                       clause='Kou: (n_paths, n_steps), first column S0, positive; E[S_t] = S0 exp(mu t) with the compensator computed from the SAME up-probability and rates as the sampled jumps; zero intensity = geometric Brownian motion')
 
 
@@ -908,4 +932,4 @@ def rough_bergomi_bounded_obs():
 
 def c10_obligations(seed, tier='quick'):
     rb = rough_bergomi_bounded_obs()
-    return [brownian_ob(False), brownian_ob(True), merton_ob(), vasicek_ob(), heston_ob(), local_vol_ob(), gbm_moments_ob(), merton_moments_ob(), kou_ob(), cir_moments_ob(), rb[0]]
+    return [brownian_ob(False, 'law'), brownian_ob(True, 'law'), merton_ob('law'), vasicek_ob('law'), heston_ob('law'), local_vol_ob('law'), gbm_moments_ob(), merton_moments_ob(), kou_ob('law'), cir_moments_ob(), rb[0]]
